@@ -10,7 +10,7 @@ ref=refcmp.rename_params(ref,f)
 a=set(refcmp.signature(p) for p in sym.Summarizer().summarize(f))
 b=set(refcmp.signature(p) for p in sym.Summarizer().summarize(ref))
 print('equal', a==b, 'equiv', refcmp.equivalent(a,b), len(a), len(b))
-bdd=refcmp.BDD(); eqs={}; refcmp._eq_atoms(a,eqs); refcmp._eq_atoms(b,eqs); care=refcmp._care(bdd,eqs)
+bdd=refcmp.BDD(); eqs={}; refcmp._eq_atoms(a,eqs); refcmp._eq_atoms(b,eqs); care=bdd.apply("and", refcmp._care(bdd,eqs), refcmp._str_facts(bdd, a|b))
 ca=refcmp.canon(a,bdd,care); cb=refcmp.canon(b,bdd,care)
 import textwrap
 def sh(oe):
@@ -29,3 +29,38 @@ for x, y in list(zip(A, B))[:int(__import__('os').environ.get('NDIFF','1'))]:
         print('first difference at', i)
         print('  code:', x[max(0, i-200):i+300])
         print('  ref :', y[max(0, i-200):i+300])
+# a witness: an assignment of the predicate atoms on which the two differ
+import itertools
+atoms = set()
+for sg in a | b:
+    for lit in sg[0]:
+        atoms.update(sym.bool_atoms(lit))
+atoms = sorted(atoms, key=repr)
+if len(atoms) <= 16 and not refcmp.equivalent(a, b):
+    def ev(k, env):
+        if k[0] == 'const': return bool(k[1])
+        if k[0] == 'not': return not ev(k[1], env)
+        if k[0] == 'and': return all(ev(x, env) for x in k[1])
+        if k[0] == 'or': return any(ev(x, env) for x in k[1])
+        at, pol = sym.atom_of(k)
+        return env[at] if pol else not env[at]
+    def bddval(u, env):
+        while u is not True and u is not False:
+            at, lo, hi = bdd.nodes[u]
+            u = hi if env[at] else lo
+        return u
+    n = 0
+    for vals in itertools.product([False, True], repeat=len(atoms)):
+        env = dict(zip(atoms, vals))
+        if not bddval(care, env):
+            continue
+        ra = set((sg[1], sg[2]) for sg in a if all(ev(l, env) for l in sg[0]))
+        rb = set((sg[1], sg[2]) for sg in b if all(ev(l, env) for l in sg[0]))
+        if ra != rb:
+            print('WITNESS:')
+            for at in atoms:
+                print('   ', env[at], sym.show(at)[:200])
+            print('  code ->', [refcmp.show_sig((frozenset(),) + x)[:200] for x in ra])
+            print('  ref  ->', [refcmp.show_sig((frozenset(),) + x)[:200] for x in rb])
+            n += 1
+            if n >= 2: break
